@@ -191,3 +191,67 @@ Proof.
   - rewrite Efl, El. intros l Hl. apply in_seq in Hl. lia.
 Qed.
 End P2.
+
+(* end to end at the level of objects, in every commutative ring: the object returned by obj.mode_dot represents the mode product of
+   what the operand object represented -- either copy flag, whatever the aliasing in the operand's factor list -- and advertises its shape *)
+Section P3.
+Context {F : Type} (Op : fops F).
+Hypothesis Rth : ring_theory (f0 Op) (f1 Op) (fadd Op) (fmul Op) (fsub Op) (fopp Op) (@eq F).
+Local Notation theapF := (theap (F:=F)).
+
+Theorem tucker_mode_dot_method_contract_entry (th : theapF) cells o copy v mode th' cells' o' idx' :
+  tcell_wf th (tcellr cells o) ->
+  tucker_mode_dot_method_h Op th cells o copy (OpVec v) mode false = Ok (th', cells', o') ->
+  S (length idx') = length (snd (tobj_read th cells o)) ->
+  tc_shape (tcellr cells' o') = remove_nth mode (cp_shape (snd (tobj_read th cells o))) /\
+  tucker_entry Op (fst (tobj_read th' cells' o')) (snd (tobj_read th' cells' o')) idx' =
+  sumn Op (length (nth mode (snd (tobj_read th cells o)) []))
+       (fun i => fmul Op (vget Op v i) (tucker_entry Op (fst (tobj_read th cells o)) (snd (tobj_read th cells o)) (insert_at mode i idx'))).
+Proof.
+  intros Hwf E Hl.
+  destruct (tucker_mode_dot_method_spec Op th cells o copy (OpVec v) mode false th' cells' o' Hwf E) as (_ & _ & Hcons & Hpure & _).
+  unfold tobj_consistent in Hcons. destruct (tobj_read th' cells' o') as [c' fs'] eqn:E'. destruct Hcons as (_ & Hs & _).
+  destruct (tobj_read th cells o) as [core fs] eqn:E0. cbn [fst snd] in *.
+  destruct (tucker_mode_dot_vector_contract Op Rth core fs v mode c' fs' idx' Hpure Hl) as [H1 H2].
+  split; [now rewrite Hs|exact H2].
+Qed.
+Theorem tucker_mode_dot_method_matrix_entry (th : theapF) cells o copy M kd mode th' cells' o' idx j :
+  tcell_wf th (tcellr cells o) ->
+  tucker_mode_dot_method_h Op th cells o copy (OpMat M) mode kd = Ok (th', cells', o') ->
+  length idx = length (snd (tobj_read th cells o)) -> j < length M ->
+  tc_shape (tcellr cells' o') = set_nth mode (length M) (cp_shape (snd (tobj_read th cells o))) /\
+  tucker_entry Op (fst (tobj_read th' cells' o')) (snd (tobj_read th' cells' o')) (set_nth mode j idx) =
+  sumn Op (length (nth mode (snd (tobj_read th cells o)) []))
+       (fun i => fmul Op (mget Op M j i) (tucker_entry Op (fst (tobj_read th cells o)) (snd (tobj_read th cells o)) (set_nth mode i idx))).
+Proof.
+  intros Hwf E Hl Hj.
+  destruct (tucker_mode_dot_method_spec Op th cells o copy (OpMat M) mode kd th' cells' o' Hwf E) as (_ & _ & Hcons & Hpure & _).
+  unfold tobj_consistent in Hcons. destruct (tobj_read th' cells' o') as [c' fs'] eqn:E'. destruct Hcons as (_ & Hs & _).
+  destruct (tobj_read th cells o) as [core fs] eqn:E0. cbn [fst snd] in *.
+  destruct (tucker_mode_dot_matrix Op Rth core fs M mode kd c' fs' idx j Hpure Hl Hj) as [H1 H2].
+  split; [now rewrite Hs|exact H2].
+Qed.
+End P3.
+
+Section P4.
+Context {F : Type}.
+Local Notation theapF := (theap (F:=F)).
+(* obj[1] = <the list at location fl'>: the object names the new list and keeps its OLD shape / rank attributes; no other cell changes.
+   It is consistent afterwards exactly when the new contents form a valid Tucker tensor with the old mode sizes and ranks *)
+Theorem tucker_setitem_factors_spec (th : theapF) cells o fl' cells' :
+  o < length cells -> tucker_setitem_h cells o 1 fl' = Ok cells' ->
+  length cells' = length cells /\ (forall k, k <> o -> tcellr cells' k = tcellr cells k) /\
+  tc_shape (tcellr cells' o) = tc_shape (tcellr cells o) /\ tc_rank (tcellr cells' o) = tc_rank (tcellr cells o) /\
+  tobj_read th cells' o = tread th (tc_core (tcellr cells o)) fl' /\
+  (tobj_consistent th cells' o <->
+   let '(c, fs) := tread th (tc_core (tcellr cells o)) fl' in
+   tucker_okb c fs = true /\ tc_shape (tcellr cells o) = cp_shape fs /\ tc_rank (tcellr cells o) = map (fun A => ncols A) fs).
+Proof.
+  intros Ho E. unfold tucker_setitem_h in E. injection E as <-.
+  set (c := mk_tcell (tc_shape (tcellr cells o)) (tc_rank (tcellr cells o)) (tc_core (tcellr cells o)) fl').
+  assert (Eo : tcellr (set_nth o c cells) o = c) by (unfold tcellr at 1; now apply nth_set_nth_same).
+  split; [apply set_nth_length|]. split; [intros k Hk; unfold tcellr; now apply nth_set_nth_other|].
+  rewrite Eo. split; [reflexivity|]. split; [reflexivity|]. split; [unfold tobj_read; rewrite Eo; reflexivity|].
+  unfold tobj_consistent, tobj_read. rewrite Eo. subst c. cbn [tc_shape tc_rank tc_core tc_fs]. unfold tread. reflexivity.
+Qed.
+End P4.
